@@ -38,8 +38,8 @@ OpenFor(m) == CASE m \in {"OREAD", "OREAD+OTRUNC"} -> "r"
                 [] m \in {"OWRITE", "OWRITE+OTRUNC"} -> "w"
                 [] m = "ORDWR" \/ m = "ORDWR+ORCLOSE" -> "rw"
                 [] m = "OEXEC" -> "x"
-Perms == {"file", "dir", "symlink", "device"}
-Special(p) == p \in {"symlink", "device"}
+Perms == {"file", "dir", "symlink", "link", "device", "namedpipe", "socket"}   \* one class per special-file bit of 9P2000.u
+Special(p) == p \in {"symlink", "link", "device", "namedpipe", "socket"}
 (* count classes: "0", "lim-1", "lim" are within msize-IOHDRSZ; "lim+1", "2^31", "2^32-24", "2^32-1" exceed it *)
 CountOK(c) == c \in {"0", "lim-1", "lim"}
 
